@@ -252,7 +252,7 @@ Proof.
     revert vs Hw. induction H as [|x r Hx Hrr IH]; intros [|v vs] Hw; cbn [wtb_fields enc_fields map sum_len] in *; try discriminate; try (unfold nlen; simpl length; lia).
     apply andb_true_iff in Hw. destruct Hw as [Hw1 Hw2]. cbn [forallb] in Hr. apply andb_true_iff in Hr. destruct Hr as [Hr1 Hr2].
     rewrite nlen_app. specialize (Hx v Hr1 Hw1). specialize (IH Hr2 vs Hw2). lia.
-  - (* enum *) destruct v as [| | | | |k pv]; try discriminate. rewrite wtb_enum in Hw. rewrite enc_enum, nlen_app, nlen_be_bytes.
+  - (* enum *) destruct v as [| | | | |k pv]; try discriminate. rewrite wtb_enum in Hw. apply andb_true_iff in Hw. destruct Hw as [_ Hw]. rewrite enc_enum, nlen_app, nlen_be_bytes.
     cbn [enc_repr enc_has_repr] in *. rewrite enc_has_repr_fields in Hr. rewrite enc_repr_fields.
     unfold wtb_variant, enc_variant in *. destruct (nth_error ts k) as [tk|] eqn:Hk; [|discriminate].
     assert (Hin : In tk ts) by (eapply nth_error_In; exact Hk).
@@ -306,7 +306,7 @@ Proof.
     cbn [trivial_enc] in Htr. rewrite trivial_enc_fields in Htr. apply andb_true_iff in Htr. destruct Htr as [Hid Hall].
     destruct (ids_equal_inv _ Hid) as [_ [_ Hnp]]. rewrite ir_of_struct in *.
     rewrite lower_struct, mem_struct, enc_struct. apply fields_sound; try assumption. now apply struct_no_pad_sizes.
-  - (* enum *) destruct v as [| | | | |k pv]; try discriminate. rewrite wtb_enum in Hw.
+  - (* enum *) destruct v as [| | | | |k pv]; try discriminate. rewrite wtb_enum in Hw. apply andb_true_iff in Hw. destruct Hw as [_ Hw].
     cbn [trivial_enc] in Htr. rewrite trivial_enc_fields in Htr. apply andb_true_iff in Htr. destruct Htr as [Hid Hall].
     destruct (ids_equal_inv _ Hid) as [Hhas [Heq Hnp]].
     rewrite enc_enum, lower_enum. rewrite ir_of_enum in *.
@@ -363,10 +363,14 @@ Definition dec_sound_at (t : aty) : Prop :=
   trivial_dec t = true -> forall b, bytes_ok b -> nlen b = size (ir_of t) ->
   exists v, wtb t v = true /\ enc t v = b.
 
+Lemma in_firstn {A} (x : A) n l : In x (firstn n l) -> In x l.
+Proof. revert l. induction n; intros [|a l] H; cbn in *; try contradiction. destruct H; [now left | right; now apply IHn]. Qed.
+Lemma in_skipn {A} (x : A) n l : In x (skipn n l) -> In x l.
+Proof. revert l. induction n; intros [|a l] H; cbn in *; try contradiction; try assumption. right. now apply IHn. Qed.
 Lemma bytes_ok_ntake n b : bytes_ok b -> bytes_ok (ntake n b).
-Proof. intros H. unfold ntake. apply Forall_forall. intros x Hx. rewrite Forall_forall in H. apply H. eapply In_firstn; eauto. Qed.
+Proof. unfold bytes_ok. intros H. unfold ntake. apply Forall_forall. intros x Hx. rewrite Forall_forall in H. apply H. eapply in_firstn; eauto. Qed.
 Lemma bytes_ok_ndrop n b : bytes_ok b -> bytes_ok (ndrop n b).
-Proof. intros H. unfold ndrop. apply Forall_forall. intros x Hx. rewrite Forall_forall in H. apply H. eapply In_skipn; eauto. Qed.
+Proof. unfold bytes_ok. intros H. unfold ndrop. apply Forall_forall. intros x Hx. rewrite Forall_forall in H. apply H. eapply in_skipn; eauto. Qed.
 
 Lemma word_value k (b : list N) (bound : N) :
   bytes_ok b -> length b = k -> 256 ^ N.of_nat k = bound ->
@@ -412,13 +416,15 @@ Lemma trivial_dec_sound_enc t : dec_sound_at t.
 Proof.
   induction t using aty_ind'; unfold dec_sound_at; intros Htr b Hok Hl; try discriminate.
   - (* unit *) exists VUnit. split; [reflexivity|]. symmetry. apply nlen_0. exact Hl.
-  - (* u8 *) destruct b as [|x [|y r]]; try (cbn in Hl; unfold nlen in Hl; cbn in Hl; lia).
+  - (* u8 *) change (size (ir_of AU8)) with 1 in Hl.
+    assert (Hlen : length b = 1%nat) by (unfold nlen in Hl; lia).
+    destruct b as [|x [|y r]]; try discriminate.
     inversion Hok; subst. unfold byte_ok in *. exists (VNum x). split; [cbn [wtb]; lia | cbn [enc]; now apply u8_byte].
-  - (* u64 *) assert (Hlen : length b = 8%nat) by (unfold nlen in Hl; cbn in Hl; lia).
+  - (* u64 *) change (size (ir_of AU64)) with 8 in Hl. assert (Hlen : length b = 8%nat) by (unfold nlen in Hl; lia).
     destruct (word_value 8 b U64_MAX1 Hok Hlen eq_refl) as [H1 H2]. exists (VNum (be_val b)). split; assumption.
-  - (* u256 *) assert (Hlen : length b = 32%nat) by (unfold nlen in Hl; cbn in Hl; lia).
+  - (* u256 *) change (size (ir_of AU256)) with 32 in Hl. assert (Hlen : length b = 32%nat) by (unfold nlen in Hl; lia).
     destruct (word_value 32 b U256_MAX1 Hok Hlen eq_refl) as [H1 H2]. exists (VNum (be_val b)). split; assumption.
-  - (* b256 *) assert (Hlen : length b = 32%nat) by (unfold nlen in Hl; cbn in Hl; lia).
+  - (* b256 *) change (size (ir_of AB256)) with 32 in Hl. assert (Hlen : length b = 32%nat) by (unfold nlen in Hl; lia).
     destruct (word_value 32 b U256_MAX1 Hok Hlen eq_refl) as [H1 H2]. exists (VNum (be_val b)). split; assumption.
   - (* array *) cbn [trivial_dec] in Htr. cbn [ir_of size] in Hl.
     destruct (chunks_sound t (size (ir_of t)) (IHt Htr) (N.to_nat n) b Hok ltac:(lia)) as [vs [H1 [H2 H3]]].
